@@ -234,6 +234,9 @@ def check_smooth(ctx: Ctx):
     m = sum(o.numel() for o in outs)
     w = [rng.uniform(-2, 2) for _ in range(m)]
     chunk = rng.choice([None, 1, 2, 3])
+    hooked = rng.randrange(len(leaves)) if rng.random() < 0.4 else None
+    if hooked is not None:
+        leaves[hooked].register_hook(lambda g: g * 0.5)     # a gradient hook on a leaf acts once, as under torch.autograd
     try:
         backward(outs, Constant(torch.tensor(w, dtype=torch.float64)), inputs=leaves, parallel_chunk_size=chunk)
     except Exception as e:  # noqa: BLE001
@@ -241,6 +244,8 @@ def check_smooth(ctx: Ctx):
                       f"{type(e).__name__}: {str(e)[:200]}", {"api": "backward-smooth", "plan": plan, "weights": w, "chunk": chunk})
         return
     l2, o2 = build()
+    if hooked is not None:
+        l2[hooked].register_hook(lambda g: g * 0.5)
     gts, off = [], 0
     for o in o2:
         gts.append(torch.tensor(w[off:off + o.numel()], dtype=torch.float64).reshape(o.shape))
